@@ -115,6 +115,9 @@ class Engine(MemMixin, OpsMixin, ExecMixin):
         self.stats = Counter()
         self.loopinfo = {}
         self.fn_loops = {}
+        self.fn_rot = {}            # id(body) -> rotated-loop candidates (see rot_info)
+        self._rot_done = {}
+        self._trial = None          # block budget of a trial run (terminal back-state test)
         self.site_ord = {}
         self.callgraph_seen = set()
         self.loops_report = []
@@ -124,6 +127,10 @@ class Engine(MemMixin, OpsMixin, ExecMixin):
         self.stubs = stubs
         self.hooks = {}          # optional observers: 'call', 'return'
         self._entry = {}
+        self._loop_gen = {}
+        self._loop_entry_cells = {}
+        self.loop_stack = []        # loops under inference: [{"lid", "hsyms": {head symbol: entry value}}]
+        self.peel_wanted = set()    # loops whose body singles out the first iteration (tests a counter against its entry value)
 
     # ------------------------------------------------------------ symbols
     def fresh(self, hint="t"):
@@ -446,6 +453,14 @@ class Engine(MemMixin, OpsMixin, ExecMixin):
             if s is not None:
                 if not self.add(st, c_eq(Lin.sym(s), Lin.const(1 if val else 0))):
                     return []
+            if k == "bit" and isinstance(f[2], int):
+                # ... and to the binary digit, when this path has already used the bit as a number
+                m1 = st.divmemo.get((Lin.sym(f[1]).key(), 1 << f[2])) if f[2] > 0 else (None, None)
+                q_ = Lin.sym(f[1]) if f[2] == 0 else (Lin.sym(m1[0]) if m1 else None)
+                m2 = st.divmemo.get((q_.key(), 2)) if q_ is not None else None
+                if m2 is not None:
+                    if not self.add(st, c_eq(Lin.sym(m2[1]), Lin.const(1 if val else 0))):
+                        return []
             return [st]
         if k == "atom":
             c = f[1]
